@@ -282,6 +282,15 @@ func run() int {
 	for _, k := range kinds {
 		kh = append(kh, fmt.Sprintf("%s=%d", k, outHist[k]))
 	}
+	if leaked > 0 {
+		mismatches = append(mismatches, fmt.Sprintf("MISMATCH kind=goroutines %d of %d stopped watchers left their forwarding goroutine behind (Stop with undelivered entries)", leaked, leakN))
+	}
+	for _, m := range mismatches {
+		if strings.Contains(m, "kind=goroutines") && leaked > 0 {
+			fmt.Println(m)
+			break
+		}
+	}
 	status := "OK"
 	code := 0
 	if len(mismatches) > 0 || len(timing) > 0 {
